@@ -125,19 +125,22 @@ def run(tier, replay):
         for v in rr["violations"]:
             # one finding per (kind, isotope, mode class): keep the key specific but stable
             ck.violation(v["key"], v["what"], {"request": v["key"].split(":", 1)[1]})
-    # ---- the gA routing with a dataset mounted for Mo100/g0 only (second evaluation of the rules)
+    # ---- the gA routing with a partially installed dataset tree (second evaluation of the rules)
     rg = vlib.tlc("MCDbdRules", "MCDbdRules_ga.cfg", workers=1, timeout=900)
     if rg.error:
         raise vlib.InfraError(rg.error)
-    ck.tlc_stats(rg, "MCDbdRules(gA dataset mounted for Mo100 mode 21)")
+    ck.tlc_stats(rg, "MCDbdRules(gA datasets partially mounted: 8 of the 16 isotope x process tables)")
     if rg.violated:
         ck.violation("model:ga:" + rg.violated, "DbdRules.tla (gA mounted): %s violated" % rg.violated, {"trace": rg.trace[-2:]})
     else:
         ggrid = [g for g in parse_verdicts(rg.out) if 21 <= g[2] <= 24]
         gadir = os.path.join(vlib.workdir("c06ga"), "gadata")
-        rc_, out_ = vlib.sh(["python3", os.path.join(vlib.ROOT, "tools", "mk_ga_dataset.py"), gadir, "Mo100", "g0"], timeout=120)
-        if rc_ != 0:
-            raise vlib.InfraError("mk_ga_dataset failed: " + out_[-400:])
+        # the mounted pairs of MCGaMounted (spec/MCDbdRules.tla)
+        for iso_, proc_ in (("Mo100", "g0"), ("Mo100", "g2"), ("Mo100", "g4"), ("Se82", "g22"), ("Cd116", "g2"), ("Cd116", "g4"),
+                            ("Nd150", "g0"), ("Nd150", "g22")):
+            rc_, out_ = vlib.sh(["python3", os.path.join(vlib.ROOT, "tools", "mk_ga_dataset.py"), gadir, iso_, proc_], timeout=120)
+            if rc_ != 0:
+                raise vlib.InfraError("mk_ga_dataset failed: " + out_[-400:])
         rr = run_replay(exe, [fmt(g) for g in ggrid], env={"BXDECAY0_DBD_GA_DATA_DIR": gadir})
         if rr.get("crash"):
             ck.violation("replay-crash:ga", "dbdrules_replay died on the gA rows (rc=%s): %s" % (rr["rc"], rr["out"][-500:]), None)
